@@ -31,3 +31,5 @@ import MicroHttp.Props.Tables
 #print axioms MicroHttp.Tables.server_new
 #print axioms MicroHttp.Tables.server_new_from_fd
 #print axioms MicroHttp.Tables.client_new
+#print axioms MicroHttp.Tables.client_fields
+#print axioms MicroHttp.Tables.server_fields
